@@ -3,7 +3,7 @@
    that ties the derivation (actions) to the set-valued grammar `Exprs`.                    *)
 EXTENDS PolicyLang
 
-MC_RetQuick == {TInt, TBool, TOpt(TInt), TP, TE}
+MC_RetQuick == {TInt, TBool, TOpt(TInt), TP, TE, TS}
 MC_RetAll   == AllTypes
 MC_RetInt   == {TInt}
 MC_RetIntBool == {TInt, TBool}
